@@ -33,7 +33,7 @@ CONSTANTS
   SwCollectOncePerIssue \* CollectMap releases each issue once ($first is the same object as a keyed one)
 
 ObjKinds == {"exec", "errs", "path", "sctx", "issue"}
-MaxObj == 4      \* ids per kind
+CONSTANT MaxObj   \* ids per kind
 Ids == 1..MaxObj
 
 Fields(k) ==
